@@ -254,13 +254,19 @@ def check_count_routes(prog, rep, rule='R6.6'):
     rep.rule(rule, 'per class T: FieldsCountVisitor::Count<T> takes exactly the serialization route(s) that Serialize(archive, T&) takes '
                    '(internal Serialize() xor global SerializeObject()), so the declared map size equals the number of entries written', floor=6)
 
-    def routes(f, tname):
+    def routes(f, tname, depth=0):
         r = {'member': 0, 'global': 0}
         for n in f.walk():
             if n['k'] == 'CXXMemberCallExpr':
                 c = f.callee(n) or {}
                 if c.get('n') == 'Serialize' and c.get('cls', c.get('clsq', '')) and strip_targs(c['q']).endswith('::Serialize'):
                     r['member'] += 1
+                elif c.get('repo') and c.get('cls') and c.get('cls') == f.cls and depth < 2 and c.get('n') != f.name:
+                    h = prog.funcs.get(c['id'])         # the dispatch extracted into a private member of the visitor
+                    if h is not None and h.body is not None:
+                        rh = routes(h, tname, depth + 1)
+                        r['member'] += rh['member']
+                        r['global'] += rh['global']
             elif n['k'] == 'CallExpr':
                 c = f.callee(n) or {}
                 if c.get('n') == 'SerializeObject':
